@@ -292,6 +292,10 @@ package backend
 //@   nosafety
 //@   requires wf_backend(b) && r != nil
 //@   modifies inferred:(*backend).GetPartitions
+// every border the engine reports is advertised, in order, and the range's end closes the list: pieces
+// k_i .. k_i+1 streamed one after the other cover the whole range
+//@   ensures [every-border-is-advertised] err == nil ==> resp != nil && resp.PartitionNum == len(gp_parts) && len(resp.PartitionKeys) == ite(len(gp_parts) == 0, 0, len(gp_parts)+1)
+//@   loop 0 invariant [one-key-per-partition-so-far-and-the-end-after-the-last] resp != nil && resp.PartitionNum == len(partitions) && -1 <= rangeindex && rangeindex < len(partitions) && len(resp.PartitionKeys) == rangeindex+1+ite(rangeindex >= 0 && rangeindex == len(partitions)-1, 1, 0)
 //@   ensures [advertised-inner-borders-are-index-records] err == nil ==> forall(i, 1 <= i && i < len(resp.PartitionKeys)-1, is_internal_key(resp.PartitionKeys[i]) ==> key_rev(resp.PartitionKeys[i]) == 0)
 
 // ---- C05: the event cache (ring buffer) ----
